@@ -267,7 +267,7 @@ func runC01(h *Harness, child *rig.Child, c *C01Case, obs *c01Obs) *Failure {
 
 				// digits typed since that wait (also inside sequences a command
 				// read key by key) may have become an argument meanwhile
-				for _, sp := range c.Steps[lastMain+1 : i] {
+				for _, sp := range c.Steps[min(lastMain+1, i):i] {
 					val := 0
 
 					for _, b := range sp.bytes(e) {
